@@ -254,7 +254,7 @@ def make_world(hooks, errh):
         app.add_hook('before_request', lambda: tr.append('B1'))
         app.on('before_request', lambda: tr.append('B2'))
         app.on('after_request')(lambda: tr.append('A1'))
-        app.add_hook('after_request', lambda: tr.append('A2'))
+        app.on('after_request', lambda: tr.append('A2'))
     elif hooks == 'before_fails':
         app.add_hook('before_request', lambda: tr.append('B1'))
 
@@ -571,8 +571,8 @@ def selfmod_unit(ctx, unit):
             app.route('/found', ['GET', 'HEAD'], lambda: tr.append('handler') or 'ok')
             b = {k: (lambda k=k: tr.append(k)) for k in ('B1', 'B2', 'B2x', 'A1', 'A2', 'A2x', 'B3')}
             app.add_hook('before_request', b['B1'])
-            app.add_hook('before_request', b['B2'])
-            app.add_hook('after_request', b['A1'])
+            app.on('before_request', b['B2'])
+            app.on('after_request', b['A1'])
             app.add_hook('after_request', b['A2'])
             h = ['handler'] if route == 'found' else []
             steps = [
